@@ -1,7 +1,12 @@
 package main
 
 import (
+	"bytes"
 	"context"
+	"go/ast"
+	"go/parser"
+	"go/printer"
+	"go/token"
 	"encoding/json"
 	"fmt"
 	"os"
@@ -45,6 +50,7 @@ type replayDoc struct {
 	Label    string            `json:"label,omitempty"`
 	Stack    string            `json:"stack,omitempty"`
 	TimeoutS int               `json:"timeout_s"`
+	Replace  map[string]string `json:"replace,omitempty"` // Config.Replace entries, applied natively by source rewriting
 }
 
 // runReplay compiles the harness natively (overlay with the native prelude and
@@ -78,6 +84,9 @@ func TestVerifReplay(t *testing.T) {
 }
 `, pkgName, doc.Harness)
 	ov[filepath.Join(repoDir, doc.Pkg, "zz_verif_replay_test.go")] = []byte(test)
+	if err := nativeReplace(doc, ov); err != nil {
+		return "", err
+	}
 	repl := map[string]string{}
 	i := 0
 	for virt, content := range ov {
@@ -106,6 +115,97 @@ func TestVerifReplay(t *testing.T) {
 	return string(out), err
 }
 
+// nativeReplace applies Config.Replace entries that name plain functions of the package
+// under test to the native build: the function is renamed and a wrapper with its signature
+// calls the harness stub, so that the native run executes what the symbolic run executed.
+// Entries naming other packages (e.g. compress/flate.NewReader) are left alone: natively the
+// real function runs, which also validates the model used in its place.
+func nativeReplace(doc *replayDoc, ov map[string][]byte) error {
+	if len(doc.Replace) == 0 {
+		return nil
+	}
+	prefix := gossa.WuffsModule + "/" + doc.Pkg + "."
+	want := map[string]string{}
+	for full, stub := range doc.Replace {
+		// only "!" entries (replace always) are executable natively; the others are uninterpreted-function summaries
+		if strings.HasPrefix(stub, "!") && strings.HasPrefix(full, prefix) && !strings.ContainsAny(full[len(prefix):], "().*") {
+			want[full[len(prefix):]] = strings.TrimPrefix(stub, "!")
+		}
+	}
+	if len(want) == 0 {
+		return nil
+	}
+	dir := filepath.Join(repoDir, doc.Pkg)
+	ents, err := os.ReadDir(dir)
+	if err != nil {
+		return err
+	}
+	fset := token.NewFileSet()
+	for _, en := range ents {
+		if !strings.HasSuffix(en.Name(), ".go") || strings.HasSuffix(en.Name(), "_test.go") {
+			continue
+		}
+		path := filepath.Join(dir, en.Name())
+		src, err := os.ReadFile(path)
+		if err != nil {
+			return err
+		}
+		f, err := parser.ParseFile(fset, path, src, 0)
+		if err != nil {
+			continue
+		}
+		type edit struct {
+			off  int
+			name string
+		}
+		var edits []edit
+		var extra strings.Builder
+		for _, d := range f.Decls {
+			fd, ok := d.(*ast.FuncDecl)
+			if !ok || fd.Recv != nil {
+				continue
+			}
+			stub, ok := want[fd.Name.Name]
+			if !ok {
+				continue
+			}
+			edits = append(edits, edit{fset.Position(fd.Name.Pos()).Offset, fd.Name.Name})
+			var tb bytes.Buffer
+			printer.Fprint(&tb, fset, fd.Type)
+			sig := strings.TrimPrefix(tb.String(), "func")
+			var args []string
+			for _, fl := range fd.Type.Params.List {
+				for _, n := range fl.Names {
+					a := n.Name
+					if _, variadic := fl.Type.(*ast.Ellipsis); variadic {
+						a += "..."
+					}
+					args = append(args, a)
+				}
+			}
+			ret := ""
+			if fd.Type.Results != nil && len(fd.Type.Results.List) > 0 {
+				ret = "return "
+			}
+			fmt.Fprintf(&extra, "\nfunc %s%s {\n\t%s%s(%s)\n}\n", fd.Name.Name, sig, ret, stub, strings.Join(args, ", "))
+			delete(want, fd.Name.Name)
+		}
+		if len(edits) == 0 {
+			continue
+		}
+		out := string(src)
+		for i := len(edits) - 1; i >= 0; i-- {
+			e := edits[i]
+			out = out[:e.off] + e.name + "__verifOrig" + out[e.off+len(e.name):]
+		}
+		ov[path] = []byte(out + extra.String())
+	}
+	for name := range want {
+		return fmt.Errorf("native replace: function %s not found in %s", name, doc.Pkg)
+	}
+	return nil
+}
+
 func goCache() string {
 	if c := os.Getenv("GOCACHE"); c != "" {
 		return c
@@ -115,8 +215,12 @@ func goCache() string {
 }
 
 func (rc *runCtx) mkDoc(g *group, pkgName string, h HSpec, params map[string]int, m []gossa.NondetVal, to time.Duration) *replayDoc {
+	cfg := gossa.DefaultConfig()
+	if h.Cfg != nil {
+		h.Cfg(&cfg, rc.thorough)
+	}
 	return &replayDoc{Property: rc.prop.ID, Harness: h.Func, Pkg: g.pkg, Dir: g.dir, PkgName: pkgName, NeedBig: g.needBig, Params: params,
-		Known: rc.knownAct, Values: m, TimeoutS: int(to.Seconds())}
+		Known: rc.knownAct, Values: m, TimeoutS: int(to.Seconds()), Replace: cfg.Replace}
 }
 
 // nativeReplay runs a model natively with a throw-away replay file.
